@@ -12,9 +12,9 @@ CONSTANTS
   MaxHit = 1
   MaxRecCrash = 0
   CapSet = {2}
-  RetSet = {0, 3}
+  RetSet = {0}
   CompactSet = {TRUE}
   AgeSet = {0}
-  Keys = {"a"}
+  Keys = {"a", "nil"}
 VIEW GenView
 CHECK_DEADLOCK FALSE
